@@ -1156,6 +1156,29 @@ func (fx *fnExec) loopModified(li *loopInfo) (cells map[*ssa.Alloc]bool, locs []
 					}
 				}
 				ct, info := fx.g.contractForCall(fx, x.Common())
+				if ct != nil && info.key == "::(*sync.Mutex).Lock" {
+					if fa, ok := x.Common().Args[0].(*ssa.FieldAddr); ok {
+						stT := deref(fa.X.Type())
+						if n := namedOf(stT); n != nil && n.Obj().Pkg() != nil {
+							for _, fp := range fx.g.cs.FieldProto {
+								if fp.Rule == "locked" && fp.Type == n.Obj().Name() && fp.Pkg == n.Obj().Pkg().Path() {
+									arr, srt := fx.fieldArr(stT, fieldIndex(structOf(stT), fp.Field))
+									locs = append(locs, loc{arr: arr, sort: srt})
+								}
+							}
+						}
+					}
+				}
+				if ct != nil && len(ct.Locks) > 0 {
+					for _, fp := range fx.g.cs.FieldProto {
+						if fp.Rule == "locked" {
+							if t := fx.g.lookupType(fp.Pkg, fp.Type); t != nil {
+								arr, srt := fx.fieldArr(t, fieldIndex(structOf(t), fp.Field))
+								locs = append(locs, loc{arr: arr, sort: srt})
+							}
+						}
+					}
+				}
 				if ct != nil {
 					for _, m := range ct.Modifies {
 						ls, gh, _ := fx.g.modStatic(fx, ct, info, x.Common(), m)
